@@ -44,6 +44,7 @@ type End struct {
 	sendBusy, recvBusy, closeBusy int
 	NSend, NRecv, NClose          int
 	NSendFault                    int
+	FaultedSends                  []int // indexes (1-based, as NSend) of the Send calls that reported an injected error
 	Overlaps                      []string
 
 	// fault script
@@ -134,6 +135,7 @@ func (e *End) Send(b []byte) error {
 		err = fmt.Errorf("send on closed channel end %s", e.Name)
 	case f == fSendErrLost:
 		e.NSendFault++
+		e.FaultedSends = append(e.FaultedSends, e.NSend)
 		e.fired(f)
 		err = ErrInjected
 	default:
@@ -143,6 +145,7 @@ func (e *End) Send(b []byte) error {
 		}
 		if f == fSendErrAfter {
 			e.NSendFault++
+			e.FaultedSends = append(e.FaultedSends, e.NSend)
 			e.fired(f)
 			err = ErrInjected
 		}
